@@ -22,7 +22,9 @@ from common import Evidence, Verdicts, run_tlc, stage_spec, MachineryError
 
 PROP = "C09"
 BODIES = {"seven": "{7}", "inc": "{x+1}", "neg": "{-x}", "cnt": "{#x}", "enl": "{,x}", "sub": "{x-y}", "right": "{y}", "pair": "{x,y}",
-          "negy": "{x+-y}", "viapy": "{pf(x)}", "sum3": "{x+y+z}", "third": "{z}", "xz": "{x*z}"}
+          "negy": "{x+-y}", "viapy": "{pf(x)}", "sum3": "{x+y+z}", "third": "{z}", "xz": "{x*z}",
+          # functions defined as PROJECTIONS of the dyad sb::{x-y} and the triad s3::{x+y+z} (defined before every history)
+          "pleft": "sb(1;)", "pright": "sb(;2)", "pmid": "s3(1;;3)"}
 ARGT = ["1", "2", "3", "[1 2]", "'ab'"]        # 'ab' stands for the string "ab" (no double quotes inside TLC constants)
 
 
@@ -138,6 +140,8 @@ def execute(hist):
     log = []
     fac = Callable(k, log)
     k["pf"] = fac.make_pf()
+    k("sb::{x-y}")
+    k("s3::{x+y+z}")
     wraps = {}
     events, shown = [], []
     for e in hist:
